@@ -9,7 +9,7 @@ Definition d_text (v : val) : text := dlist dN v.
 Definition e_tuple2 (b : list (list N)) : val := elist (elist eN) b.
 Definition e_text (t : text) : val := elist eN t.
 
-(* payload: (num_alternatives ((alt name) ...) ((order mult) ...) nic st rst)
+(* payload: (num_alternatives ((alt name) ...) ((order mult) ...) nic st rst category_name)
    nic, st : () for None, ((n ...)) for a list;  rst : () for None, ((table ...)) for a list of
    relative truncators, each given as the table  n |-> int(ceil(n * t)),  n = 0 .. max len(order) *)
 (* the last field (the padded ballot of every source order, in source order) is not compared by the
@@ -32,7 +32,8 @@ Definition op_from_ordinal (v : val) : val :=
   let nic := doption (dlist dN) (dnth 3 v) in
   let st := doption (dlist dN) (dnth 4 v) in
   let rst := doption (dlist (dlist dN)) (dnth 5 v) in
-  eresult (e_cat_inst (fo_ballots nic st rst (os_multiplicity src))) (from_ordinal src nic st rst).
+  let cn := doption (dlist d_text) (dnth 6 v) in      (* category_name: () = None, ((name ...)) = a list *)
+  eresult (e_cat_inst (fo_ballots nic st rst (os_multiplicity src))) (from_ordinal src nic st rst cn).
 
 (* payload: (reset prefs ((ballot mult) ...)) -> (prefs mult num_voters num_unique_preferences)
    (factorise_instance followed by recompute_cardinality_param) *)
